@@ -276,6 +276,13 @@ add("g2_chunkreader_read", "yaml::chunker",
 add("g2_chunkreader_overclaim_panics", "yaml::chunker",
     desc="a reader that claims more bytes than the buffer holds ends in a clean panic (kani::should_panic: a panic and no memory-safety failure)",
     bounds="buffer 0..4, claim any usize > size", functions=["yaml::chunker::ChunkReader::read"], props=["C17"], timeout=300, mem_gb=8, replay="overclaim")
+add("g2_chunkreader_overclaim_release", "yaml::chunker", fn="g2_chunkreader_overclaim_panics", overlay="e1r",
+    desc="G2 over-claim harness under the semantics of the release build (debug-assertions off, so debug_assert! and std's debug-only precondition checks are compiled out): the over-claim still ends in a clean panic with no memory-safety failure",
+    bounds="buffer 0..4, claim any usize > size; [profile.dev] debug-assertions = false", functions=["yaml::chunker::ChunkReader::read"], props=["C17"], timeout=300, mem_gb=8, replay="overclaim")
+add("c2p_overclaim_release", "input", fn="c2p_overclaim_panics", overlay="e1r",
+    desc="C2'o under the semantics of the release build (debug-assertions off)",
+    bounds="over-report by 1..4 bytes, request size 1..3; [profile.dev] debug-assertions = false", functions=C_FUN[3:4], props=["C17", "C04"], timeout=600, mem_gb=10,
+    assumptions=C_RTE, replay="overclaim")
 add("h1_read_handler_claims", "yaml::chunker::parser",
     desc="Parser::read_handler, two consecutive calls with arbitrary (also shrinking) buffer sizes and a reader claiming ANY length or failing: nothing written beyond buffer_size (canary + pointer checks), *size_read <= buffer_size, the reader is never offered more than buffer_size, failure stashes / success clears the error",
     bounds="destination 8 B, buffer_size 0..8 per call, claim any usize, 2 calls", functions=["yaml::chunker::parser::Parser::read_handler"],
